@@ -804,7 +804,9 @@ class TLSConnection(TLSRecordLayer):
             session_id = getRandomBytes(32)
 
             extensions.append(SupportedVersionsExtension().
-                              create(settings.versions))
+                              create([i for i in settings.versions if
+                                      settings.minVersion <= i <=
+                                      settings.maxVersion]))
 
             shares = []
             for group_name in settings.keyShares:
